@@ -53,7 +53,7 @@ def prop(pid, title, **kw):
     PROPS[pid] = d
 
 
-prop('C01', 'every mutator implements bounded-deque semantics', stubs=[ROT_STUB])
+prop('C01', 'every mutator implements bounded-deque semantics', stubs=[ROT_STUB], e1_configs_thorough=['plain'])
 prop('C02', 'single-element insertion never loses an element')
 prop('C03', 'every element dropped exactly once, never while reachable', stubs=[ROT_STUB], code_failures_count=False)
 prop('C04', 'unoccupied storage is never observed', code_failures_count=False, jobs=10, stubs=[ROT_STUB])
@@ -64,11 +64,11 @@ prop('C05', 'panicking destructor: no second drop, buffer stays valid', e1_confi
 prop('C06', 'panic in user code leaves a valid buffer, nothing leaked', e1_configs=[], bounds=E2_BOUNDS,
      e2=[dict(tag='std', features=['std', 'alloc'],
               jobs=e2_jobs([(s, 2, QN5) for s in C06_SCENS], [(s, 2, TN5) for s in C06_SCENS]))])
-prop('C07', 'all views agree; mutable views alias exactly those elements', stubs=[ROT_STUB])
-prop('C08', 'iterators obey the double-ended exact-size protocol')
-prop('C09', 'drain removes exactly the range, keeps the rest in order', bounds=dict(E1=E1_BOUNDS, E2=E2_BOUNDS),
+prop('C07', 'all views agree; mutable views alias exactly those elements', e1_configs_thorough=['plain'], stubs=[ROT_STUB])
+prop('C08', 'iterators obey the double-ended exact-size protocol', e1_configs_thorough=['plain'])
+prop('C09', 'drain removes exactly the range, keeps the rest in order', bounds=dict(E1=E1_BOUNDS, E2=E2_BOUNDS), e1_configs_thorough=['plain'],
      e2=[dict(tag='std', features=['std', 'alloc'], jobs=e2_jobs([('DRAIN_DROP', 3, QN5)], [('DRAIN_DROP', 3, TN5)]))])
-prop('C10', 'leaking a drain is safe')
+prop('C10', 'leaking a drain is safe', e1_configs=['default', 'plain'])
 prop('C11', 'panics exactly when documented, otherwise total', bounds=dict(E1=E1_BOUNDS, E2=E2_BOUNDS),
      e2=[dict(tag='std', features=['std', 'alloc'], jobs=e2_jobs([(s, 0, QN5) for s in C11_SCENS], [(s, 0, TN5) for s in C11_SCENS]))])
 prop('C12', 'constructors and conversions')
@@ -87,4 +87,4 @@ prop('C18', 'unstable feature does not change behaviour', e1_configs=[], differe
 prop('C19', 'zero-sized elements and extreme capacities', bounds=dict(E1=E1_BOUNDS, E2='add_mod/sub_mod: all 64-bit x, y <= m, m > 0 (no bound on N)'),
      e2=[dict(tag='std', features=['std', 'alloc'], unwind=lambda n, m: 4, timeout=dict(quick=900, thorough=3600),
               jobs=dict(quick=[('ADD_MOD', 0, [1])], thorough=[('ADD_MOD', 0, [1]), ('SUB_MOD', 0, [1])]))])
-prop('C20', 'constant-time operations move O(1) elements', stubs=[ROT_STUB], code_failures_count=False)
+prop('C20', 'constant-time operations move O(1) elements', e1_configs_thorough=['plain'], stubs=[ROT_STUB], code_failures_count=False)
